@@ -926,7 +926,6 @@ func c16JS(e *env, src string, cases []c16Case) {
 	}
 	var reqs []string
 	var chks []chk
-	brH, wbrH := hx.H("<br>"), hx.H("<wbr>")
 	for ji, j := range js {
 		c := j.c
 		d := c.ds[len(c.ds)-1]
@@ -971,12 +970,13 @@ func c16JS(e *env, src string, cases []c16Case) {
 			chks = append(chks, chk{ji, "json", y})
 			reqs = append(reqs, "json_parse_string "+hx.H(out))
 		case "changeNewlineToBr":
-			// the JS helper works on text that is already HTML: nothing but line breaks may change
-			chks = append(chks, chk{ji, "br", removeTokGo(removeNewlinesB(y), "<br>")})
-			reqs = append(reqs, "remove_tok "+brH+" "+hx.H(out))
+			// since repair b30db12 the generated JavaScript escapes the directive's input (as soyhtml does):
+			// without the <br> tokens the output must decode back to the value without its line breaks
+			chks = append(chks, chk{ji, "html", removeNewlinesB(y)})
+			reqs = append(reqs, "html_decode "+hx.H(removeTokGo(out, "<br>")))
 		case "insertWordBreaks":
-			chks = append(chks, chk{ji, "wbr", removeTokGo(y, "<wbr>")})
-			reqs = append(reqs, "remove_tok "+wbrH+" "+hx.H(out))
+			chks = append(chks, chk{ji, "html", y})
+			reqs = append(reqs, "html_decode "+hx.H(removeTokGo(out, "<wbr>")))
 		case "escapeHtml":
 			chks = append(chks, chk{ji, "html", y})
 			reqs = append(reqs, "html_decode "+hx.H(out))
